@@ -67,7 +67,7 @@ def build_unit(unit, force_lost=None):
                 try:
                     raw2, _l = extract.extract_fn(root, it)
                     t2 = extract.strip_inner_attrs_and_comments(raw2)
-                    t2, _ = extract.apply_rewrites(t2, [r for r in (it.get("rewrites") or []) if r[2] == 0], "fn " + it["name"])
+                    t2, _ = extract.apply_rewrites(t2, [(r[0], r[1], 0, 10 ** 6) for r in (it.get("rewrites") or [])], "fn " + it["name"])
                     stub = extract.stub_fn(t2, it)
                     chunks.append((it.get("rename", it["name"]) + "<stub>", [], stub))
                 except Exception:
